@@ -66,6 +66,8 @@ pub fn run_c01(cx: &Cx) -> PropResult {
         let strat = tv_strategy(depth, ValCfg::default());
         drive(crate::run::tag_seed(derive_seed(cx.seed, cx.prop, shard as u64, 0), 0), &strat, per_shard, acc, &|c: &TV| to_json(c), &mut |c, a, r| check_c01(c, a, r));
     });
+    let mut acc = acc;
+    reduce_violations(&mut acc, &|c, a, r| check_c01(c, a, r));
     let mut r = PropResult::new(
         acc,
         "exploration",
@@ -154,7 +156,70 @@ pub fn check_c04(c: &TV, acc: &mut Acc, record: bool) -> Verdict {
     }
 }
 
+/// DESIGN section 4: the reference codec is anchored to bytes that did not come from the Rust writer.
+/// Err(msg) = the model itself disagrees with the anchors (exit 2: the oracle is broken, nothing is believed);
+/// Ok(Some(msg)) = the model reads the anchors as documented but desert does not (a C04 violation).
+fn anchors() -> Result<Option<String>, String> {
+    use vmodel::declgen::{fixed_decls, golden_model};
+    // (b) the pinned 14-byte Point vector of desert_macro/tests/derivation.rs
+    let point = fixed_decls().into_iter().find(|d| d.name == "FixPoint").expect("FixPoint");
+    let pv = Val::Rec(vec![Val::Int(1), Val::Int(-10), Val::None]);
+    let want = [0x02u8, 0x08, 0x08, 0x03, 0x02, 0x7a, 0xff, 0xff, 0xff, 0xf6, 0, 0, 0, 1];
+    let got = ref_encode(&Ty::Adt(point.clone()), &pv).map_err(|e| format!("reference encoder rejects Point: {e:?}"))?.bytes;
+    if got != want {
+        return Err(format!("reference encoding of Point {{ x: 1, y: -10 }} is {} but the repository pins {}", hex(&got), hex(&want)));
+    }
+    // (a) the Scala-produced golden file
+    let repo = std::env::var("VERIF_REPO").unwrap_or_else(|_| "/repo".to_string());
+    let path = format!("{repo}/desert_macro/golden/dataset1.bin");
+    let bytes = std::fs::read(&path).map_err(|e| format!("cannot read {path}: {e}"))?;
+    let ty = golden_model();
+    let (v, used) = ref_decode(&ty, &bytes).map_err(|e| format!("the reference decoder rejects the golden file: {e:?}"))?;
+    if used != bytes.len() {
+        return Err(format!("the reference decoder consumed {used} of the golden file's {} bytes", bytes.len()));
+    }
+    // the values spelled out in desert_macro/tests/golden.rs
+    let fs = match &v {
+        Val::Rec(fs) => fs,
+        _ => return Err("golden value is not a record".into()),
+    };
+    let expect = [
+        (0, Val::Int(-10)),
+        (1, Val::Int(10000)),
+        (2, Val::Int(-2000000000)),
+        (3, Val::Int(100000000001)),
+        (4, Val::F32(3.14f32.to_bits())),
+        (5, Val::F64(0.1234e-10f64.to_bits())),
+        (6, Val::Bool(false)),
+        (7, Val::Unit),
+        (8, Val::str("Example data set")),
+        (9, Val::Bytes(vec![0xd9, 0x0c, 0x42, 0x85, 0x54, 0x4d, 0x42, 0x4d, 0x88, 0x5c, 0x39, 0x40, 0xfe, 0x00, 0x88, 0x3d])),
+    ];
+    for (i, e) in expect {
+        if fs[i] != e {
+            return Err(format!("the reference decoder reads field {i} of the golden file as {:?}, golden.rs says {:?}", fs[i], e));
+        }
+    }
+    match &fs[10] {
+        Val::Rec(t) if t[0] == Val::str("java.lang.RuntimeException") && t[1] == Val::str("Example exception") => {}
+        other => return Err(format!("golden exception reads as {}", other.brief())),
+    }
+    // desert (through the E3 interpreter of the same declaration) must read the same value
+    match vcat::decode(&ty, &bytes) {
+        Ok(r) if canon(&ty, &r) == canon(&ty, &v) => Ok(None),
+        Ok(r) => Ok(Some(format!("desert reads the Scala-produced golden file as {} but the format assigns {}", r.brief(), v.brief()))),
+        Err(e) => Ok(Some(format!("desert rejects the Scala-produced golden file: {e:?}"))),
+    }
+}
+
 pub fn run_c04(cx: &Cx) -> PropResult {
+    let anchor_violation = match anchors() {
+        Ok(v) => v,
+        Err(e) => {
+            eprintln!("C04: the reference model disagrees with its anchors: {e}");
+            std::process::exit(2);
+        }
+    };
     let depth = if cx.tier == crate::run::Tier::Quick { 3 } else { 4 };
     let per_shard = cx.n(25_000, 800_000);
     let acc = parallel(cx, &|shard, acc| {
@@ -166,16 +231,30 @@ pub fn run_c04(cx: &Cx) -> PropResult {
         let strat = tv_strategy_ext(2, ValCfg { max_len: 5, long: false, ..ValCfg::default() }, true);
         drive(crate::run::tag_seed(derive_seed(cx.seed, cx.prop, shard as u64, 1), 1), &strat, per_shard / 2, acc, &|c: &TV| to_json(c), &mut |c, a, r| check_c04(c, a, r));
     });
+    let mut acc = acc;
+    reduce_violations(&mut acc, &|c, a, r| check_c04(c, a, r));
+    acc.case("anchor: golden/dataset1.bin (written by Scala desert) and the pinned Point vector", 0xA11C, true);
+    acc.sample("anchor", json!({"golden_file": "desert_macro/golden/dataset1.bin", "bytes": 242540, "decoded_by": "reference decoder and desert, compared"}));
+    if let Some(v) = anchor_violation {
+        acc.violation(v, json!({"anchor": "golden"}));
+    }
     let mut r = PropResult::new(
         acc,
         "exploration",
-        "cases = (type expression T, value v, form choices). Encode direction: serialize(v) must equal the independent reference encoder byte for byte. Decode direction: the reference encoder renders v with every sequence node independently in known-length or unknown-length form (a form the Rust writer never emits); deserialize must return v. Non-trivial = encoding of >= 2 bytes; distinct by hash of (T, v, forms).",
+        "anchors first: the reference decoder must read the Scala-written golden/dataset1.bin completely (242 540 bytes, unknown-length list, evolution header, sorted-constructor enum) to the values spelled out in the repository's golden test and encode the pinned 14-byte Point vector (else exit 2: broken oracle), and desert must read the golden file to the same value. Then cases = (type expression T, value v, form choices). Encode direction: serialize(v) must equal the independent reference encoder byte for byte. Decode direction: the reference encoder renders v with every sequence node independently in known-length or unknown-length form (a form the Rust writer never emits); deserialize must return v. Non-trivial = encoding of >= 2 bytes; distinct by hash of (T, v, forms).",
     );
     r.assumptions = vec!["the reference codec (vmodel::refcodec) is the statement of the format; it shares no code with desert".into()];
     r
 }
 
 pub fn replay_c04(case: &Value) -> Verdict {
+    if case.get("anchor").is_some() {
+        return match anchors() {
+            Ok(None) => Verdict::Pass,
+            Ok(Some(v)) => Verdict::Fail(v),
+            Err(e) => Verdict::Fail(format!("HARNESS: {e}")),
+        };
+    }
     let c: TV = serde_json::from_value(case.clone()).expect("replay case");
     check_c04(&c, &mut Acc::new(), false)
 }
@@ -205,4 +284,98 @@ pub fn tv_strategy_ext(depth: u32, cfg: ValCfg, with_dedup: bool) -> BoxedStrate
         })
         .prop_map(|(ty, val, forms)| TV { ty, val, forms })
         .boxed()
+}
+
+// ---- structural reduction of a failing (type, value): proptest cannot shrink the *type* of a flat-mapped case, so
+// after its value shrinking the failing case is walked down to the smallest sub-term that still fails
+
+fn sub_cases(tv: &TV) -> Vec<TV> {
+    use std::sync::Arc;
+    let mk = |ty: &Ty, val: &Val| TV { ty: ty.clone(), val: val.clone(), forms: tv.forms.clone() };
+    let mut out = Vec::new();
+    match (&tv.ty, &tv.val) {
+        (Ty::Option(t), Val::Some(x)) => out.push(mk(t, x)),
+        (Ty::Result(t, _), Val::Ok(x)) => out.push(mk(t, x)),
+        (Ty::Result(_, e), Val::Err(x)) => out.push(mk(e, x)),
+        (Ty::Tuple(ts), Val::Tuple(xs)) => {
+            for (t, x) in ts.iter().zip(xs) {
+                out.push(mk(t, x));
+            }
+        }
+        (Ty::Vec(e) | Ty::LinkedList(e) | Ty::HashSet(e) | Ty::BTreeSet(e) | Ty::Array(e, _), Val::Seq(xs)) => {
+            for x in xs {
+                out.push(mk(e, x));
+            }
+            if !matches!(tv.ty, Ty::Array(..)) && xs.len() > 1 {
+                // the same container with one element, and with each half
+                for x in xs {
+                    out.push(TV { ty: tv.ty.clone(), val: Val::Seq(vec![x.clone()]), forms: tv.forms.clone() });
+                }
+                out.push(TV { ty: tv.ty.clone(), val: Val::Seq(xs[..xs.len() / 2].to_vec()), forms: tv.forms.clone() });
+                out.push(TV { ty: tv.ty.clone(), val: Val::Seq(xs[xs.len() / 2..].to_vec()), forms: tv.forms.clone() });
+            }
+        }
+        (Ty::HashMap(k, w) | Ty::BTreeMap(k, w), Val::Map(ps)) => {
+            for (a, b) in ps {
+                out.push(mk(k, a));
+                out.push(mk(w, b));
+                if ps.len() > 1 {
+                    out.push(TV { ty: tv.ty.clone(), val: Val::Map(vec![(a.clone(), b.clone())]), forms: tv.forms.clone() });
+                }
+            }
+        }
+        (Ty::Box(t) | Ty::Rc(t) | Ty::Arc(t), x) => out.push(mk(t, x)),
+        (Ty::Adt(d), v) => {
+            let fields: Option<(&vmodel::Record, &Vec<Val>)> = match (&d.body, v) {
+                (vmodel::DeclBody::Struct(r), Val::Rec(fs)) => Some((r, fs)),
+                (vmodel::DeclBody::Enum { variants, .. }, Val::Variant(i, fs)) => Some((&variants[*i].record, fs)),
+                _ => None,
+            };
+            if let Some((r, fs)) = fields {
+                for (f, x) in r.fields.iter().zip(fs) {
+                    if f.transient.is_none() && !f.ty.any(&|t| matches!(t, Ty::Rec(_))) {
+                        out.push(mk(&f.ty, x));
+                    }
+                }
+            }
+        }
+        _ => {}
+    }
+    let _ = Arc::new(0);
+    out
+}
+
+/// `fails` returns the failure message of a case, or None if it passes
+pub fn reduce_tv(mut tv: TV, mut msg: String, fails: &dyn Fn(&TV) -> Option<String>) -> (TV, String) {
+    for _ in 0..400 {
+        let mut progressed = false;
+        for sub in sub_cases(&tv) {
+            if let Some(m) = fails(&sub) {
+                tv = sub;
+                msg = m;
+                progressed = true;
+                break;
+            }
+        }
+        if !progressed {
+            break;
+        }
+    }
+    (tv, msg)
+}
+
+/// applies `reduce_tv` to the violations a run recorded (their replay JSON is a TV)
+pub fn reduce_violations(acc: &mut Acc, check: &dyn Fn(&TV, &mut Acc, bool) -> Verdict) {
+    for v in acc.violations.iter_mut() {
+        if let Ok(tv) = serde_json::from_value::<TV>(v.replay.clone()) {
+            let fails = |t: &TV| match crate::run::guarded(|| check(t, &mut Acc::new(), false)) {
+                Ok(Verdict::Fail(m)) => Some(m),
+                Ok(_) => None,
+                Err(p) => Some(format!("panic: {p}")),
+            };
+            let (small, msg) = reduce_tv(tv, v.what.clone(), &fails);
+            v.what = msg;
+            v.replay = to_json(&small);
+        }
+    }
 }
